@@ -2,7 +2,7 @@
 From Coq Require Import List Bool.
 Import ListNotations.
 From Mos Require Import Str Xml Outcome Seq Spec Elements Classify Messages Merge Proto.
-From Mos.proofs Require Import Warn StoryOrder.
+From Mos.proofs Require Import Warn StoryOrder ItemFacts.
 
 (* Never silence: if a story-level merge neither raises nor warns, then every story ID the
    message names (targets, sources, every ID of a multi-ID message - named_story_ids is one
@@ -60,3 +60,15 @@ Theorem C06_fully_applied_is_silent :
    r_ws (gen_swap (ckey tag idtag) str_eqb None ids l) = []).
 Proof. exact resolved_move_swap_silent. Qed.
 Print Assumptions C06_fully_applied_is_silent.
+
+(* item level: a merge that neither raises nor warns found the addressed story and, in it,
+   every item the message names (all 9 item-level classes) *)
+Theorem C06_raise_or_warn_items :
+  forall (o : oracles) (k : mclass) (m b rc : xml),
+  is_item_class k = true -> msg_ok m = true -> wf_rc rc = true ->
+  let r := merge_kids o k m b rc in
+  r_err r = None -> r_ws r = [] ->
+  exists i s, find_story (addressed_story k b) (kids_of rc) = FFound i /\ nth_error (kids_of rc) i = Some s /\
+    forall id, In id (named_item_ids k b) -> present (item_ids s) id = true.
+Proof. exact item_silent_means_resolved. Qed.
+Print Assumptions C06_raise_or_warn_items.
